@@ -45,6 +45,11 @@ type V struct {
 	// Struct marks an object that stands for a Go struct (fold model): its
 	// members address struct fields, unknown members may be added to it.
 	Struct bool
+	// FieldNames (with Struct, fold model only): every member name the struct
+	// type knows, whether or not the value has that member (omitted and ignored
+	// fields, fields of inlined structs); nil when the struct inlines a map or an
+	// interface (then no name is certainly unknown).
+	FieldNames []string
 	// Lit (JSON only): the number literal this node was written as / read from.
 	Lit string
 }
